@@ -18,27 +18,31 @@ import time
 import bv  # noqa: F401
 from bv.engine import vclock, explorer
 from bv.engine.acc import Acc, h64
-from bv.engine.bfs import bfs
-from bv.engine.pool import run_shards, chunks, HarnessError
+from bv.engine.pool import run_shards, chunks, HarnessError, WORKERS
 from bv.refs import bbmdref
 from bv.stacks.bipsys import BipSystem
 
 PROPERTY = "C13"
 LEVEL = "model_checking"
-BUDGET = {"quick": 58.0, "thorough": 840.0}
-RULE = ("part1: every layout of the family (multisets of 1..3 [thorough 4] subnets, each with 0/1 BBMD and 0..2 ordinary "
-        "nodes; 0..2 [3] foreign devices on subnets of their own registered with any BBMD; every assignment of /32 or "
-        "subnet masks to the BBMDs; full tables on every shape, every combination of per-BBMD peer subsets on the "
-        "one-ordinary-node-and-one-foreign-device-per-BBMD shapes) x every node as originator x (FIFO delivery + each "
-        "single overtaking of datagrams that share a network; overtakings between datagrams on different networks are "
-        "skipped because no B/IP node sees both); a case is distinct by (layout, originator, choice sequence). "
-        "part2: BFS over histories of register(fd, ttl in 1..3) | unregister | delete-FDT-entry (sent to the BBMD) | lose / "
-        "pass the device's renewals | advance 0.5 s | 1 s | 30 s (30 s only while a registration is lapsing), and in every "
-        "state one broadcast from every kind of node and one Read-FDT; a state is the canonical snapshot of every "
-        "BIPBBMD / BIPForeign object (FDT entries with remaining seconds, status, timers relative to now), the pending "
-        "task list, the clock phase and the lifetime monitor (times relative to now, capped where the verdict cannot "
-        "change). part3: every TTL 1..300 x registration phase, probed every 0.5 s (quick: every 0.5 s near the "
-        "boundaries, every 5 s between).")
+BUDGET = {"quick": 55.0, "thorough": 840.0}
+RULE = ("part1: every layout of the family x every node as originator x (FIFO delivery + each single overtaking among "
+        "datagrams that share a network; overtakings between datagrams on different networks are skipped because no B/IP "
+        "node sees both).  Family A: every multiset of 1..3 [thorough 4] subnets, each with 0/1 BBMD and 0..2 ordinary nodes, "
+        "0..2 [3] foreign devices on subnets of their own registered with any BBMD, every assignment of /32 (two-hop) or "
+        "subnet (one-hop) masks to the BBMDs, full tables.  Family B: every combination of per-BBMD peer subsets (2 and 3 "
+        "BBMDs; for 4 BBMDs one BBMD with each proper subset, nobody-lists-anybody, ring, star) x every mask assignment on "
+        "fixed shapes (one ordinary node and one foreign device per BBMD; the same plus a subnet without BBMD; two devices at "
+        "one BBMD with bare peers).  A case is distinct by (layout, originator, choice sequence).  "
+        "part2: BFS over histories of register(fd, ttl in 1..3) | unregister | Delete-FDT-Entry sent to the BBMD | lose / "
+        "pass the device's renewals | advance 0.5 s | 1 s | 30 s (30 s only while a registration is lapsing); in every "
+        "state one broadcast from every kind of node and one Read-FDT are executed and judged (they are transitions too if "
+        "they change the state).  A state is the canonical snapshot of every BIPBBMD / BIPForeign object (FDT entries with "
+        "remaining seconds, status, timers relative to now), the pending task list, the clock phase and the lifetime "
+        "monitor (times relative to now, capped where the verdict cannot change any more); the order of FDT entries is kept. "
+        "States that violate an invariant are reported and not expanded.  "
+        "part3: every TTL 1..300 x registration phase with all renewals lost, probed by a broadcast and a Read-FDT every "
+        "0.5 s until TTL+31.5 s (quick: every 0.5 s within 3 s of the acknowledgement, TTL-3..TTL+8 and the last 2 s, every "
+        "5 s between), then renewals pass again.")
 ASSUMPTIONS = [
     "single thread; virtual clock bound to bacpypes.task._time; UDP is replaced by vlan.IPNode on controlled IPNetworks joined by vlan.IPRouter",
     "foreign devices sit on subnets of their own (BIPForeign ignores Original-Broadcast-NPDU on its own wire; the statement does not decide that)",
@@ -48,8 +52,11 @@ ASSUMPTIONS = [
     "the grace period is the standard's 30 s: an implementation may drop an entry anywhere in [TTL, TTL+30 s]",
 ]
 BOUNDS = {
-    "quick": "part1 <=3 subnets, <=2 foreign devices, d<=1; part2 depth<=8 (1 foreign device, two-hop and one-hop) ; part3 TTL 1..300 x 2 phases",
-    "thorough": "part1 <=4 subnets, <=3 foreign devices, d<=1; part2 depth<=11 (1 device) and depth<=7 (2 devices); part3 TTL 1..300 x 4 phases, every 0.5 s",
+    "quick": "part1 <=3 subnets, <=2 foreign devices, d<=1 reordering; part2 1 foreign device: closure (histories of any length) "
+             "without datagram loss on a two-hop and a one-hop internetwork, depth<=7 with lost renewals; part3 TTL 1..300 x 2 phases",
+    "thorough": "part1 <=4 subnets, <=3 foreign devices, d<=1 reordering; part2 1 device: closure without loss, with lost renewals "
+                "closure attempted on the two-hop internetwork (depth<=70, reported per configuration) and depth<=8 one-hop; "
+                "2 devices: depth<=8 without loss, <=6 with lost renewals; part3 TTL 1..300 x 4 phases, every 0.5 s",
 }
 
 SUB_OPTS = [(1, 0), (1, 1), (1, 2), (0, 1), (0, 2)]
@@ -92,7 +99,7 @@ def p1_layouts(tier):
     shapes = []
     for k in ((2, 3) if tier == "quick" else (2, 3, 4)):
         shapes.append(([(1, 1)] * k, list(range(k))))                       # one ordinary node + one foreign device per BBMD
-        if k == 2 or tier != "quick":
+        if k == 2 or (k == 3 and tier != "quick"):
             shapes.append(([(1, 1)] * k + [(0, 1)], list(range(k))))        # plus a subnet without BBMD
         if k < 4:
             shapes.append(([(1, 2)] + [(1, 0)] * (k - 1), [0, 0]))          # two devices at one BBMD, bare peers
@@ -193,7 +200,7 @@ def judge_broadcast(sysm, origin, payload, expected, since=0.0, may=(), undecide
     return problems, got
 
 
-def p1_record(acc, lay, origin, sysm, points, payload):
+def p1_record(acc, lay, origin, sysm, points, payload, confirm=True):
     topo = sysm.topo
     fdt = sysm.fdt_served()
     if set(f for s in fdt.values() for f in s) != set(sysm.life):
@@ -218,6 +225,13 @@ def p1_record(acc, lay, origin, sysm, points, payload):
     acc.outcome("p1:%s:%s:reached=%d/%d" % ("full" if full else "partial", kind_of(origin), len(expected), len(sysm.order) - 1))
     for name, msg in sysm.swallowed():
         acc.swallowed["%s: %s" % (name, msg[:80])] += 1
+    if problems and confirm and not any(s_.startswith("bcast:") for s_ in acc.fails):
+        # every (first) violating execution is re-run twice more; a different verdict is a harness error, not a finding
+        for _ in range(2):
+            s2, pts2, pl2 = p1_execute(lay, origin, choices)
+            again, _got = judge_broadcast(s2, origin, pl2, expected)
+            if again != problems:
+                raise HarnessError("C13 part1: violating execution does not reproduce: %r vs %r" % (problems, again))
     for prob, victim, detail in problems:
         sig = "bcast:%s:origin=%s:at=%s:%s-table" % (prob, kind_of(origin), kind_of(victim), "full" if full else "partial")
         acc.fail(sig, {"problem": prob, "at": victim, "detail": detail, "origin": origin, "layout": lay,
@@ -425,21 +439,24 @@ def p2_configs(tier):
         return {"layout": layout, "sources": list(sources), "read": list(read), "manager": manager, "ttls": list(ttls),
                 "mute": mute, "label": label}
 
+    # without datagram loss the state space is finite and small: the bound 60 is never reached, the search ends when the
+    # frontier is empty (closure: every history of any length over this alphabet has been judged)
     if tier == "quick":
         return [
-            (cfg("1fd-two-hop", two, False), 8, 100000),
-            (cfg("1fd-one-hop", one, False, manager="o1a"), 8, 100000),
-            (cfg("1fd-two-hop-lost-renewals", two, True), 6, 100000),
+            (cfg("1fd-two-hop", two, False), 60, 100000),
+            (cfg("1fd-one-hop", one, False, manager="o1a"), 60, 100000),
+            (cfg("1fd-two-hop-lost-renewals", two, True), 7, 100000),
         ]
     twofd = {"subnets": [[1, 1], [1, 0]], "fds": [0, 1], "bdt": "full", "mask": "host"}
     samefd = {"subnets": [[1, 1]], "fds": [0, 0], "bdt": "full", "mask": "host"}
     return [
-        (cfg("1fd-two-hop", two, False), 11, 2000000),
-        (cfg("1fd-one-hop", one, False, manager="o1a"), 11, 2000000),
-        (cfg("1fd-two-hop-lost-renewals", two, True), 9, 2000000),
+        (cfg("1fd-two-hop", two, False), 60, 2000000),
+        (cfg("1fd-one-hop", one, False, manager="o1a"), 60, 2000000),
         (cfg("1fd-one-hop-lost-renewals", one, True, manager="o1a"), 8, 2000000),
-        (cfg("2fd-two-bbmds", twofd, False, sources=["o0a", "b1", "f0", "f1"], read=["b0", "b1"], ttls=(1, 3)), 7, 2000000),
+        (cfg("2fd-two-bbmds", twofd, False, sources=["o0a", "b1", "f0", "f1"], read=["b0", "b1"], ttls=(1, 3)), 8, 2000000),
         (cfg("2fd-one-bbmd-lost-renewals", samefd, True, sources=["o0a", "f0", "f1"], ttls=(1, 2)), 6, 2000000),
+        # last, with whatever is left of part 2's share: closes at about 75 000 states when it is given the time
+        (cfg("1fd-two-hop-lost-renewals", two, True), 70, 400000),
     ]
 
 
@@ -461,6 +478,13 @@ def p2_expand(item, deadline):
         for name, msg in h.sys.swallowed():
             acc.swallowed["%s: %s" % (name, msg[:80])] += 1
         for sig, detail in h.problems:
+            if sig not in acc.fails:
+                # first violating history per signature and shard: replay it twice more
+                for _ in range(2):
+                    again = p2_replay(cfg, tuple(hist) + (ev,))
+                    if [p_[0] for p_ in again.problems] != [p_[0] for p_ in h.problems]:
+                        raise HarnessError("C13 part2: violating history does not reproduce: %r: %r vs %r" % (
+                            list(hist) + [ev], [p_[0] for p_ in h.problems], [p_[0] for p_ in again.problems]))
             acc.fail(sig, {"problem": sig, "detail": detail, "history": list(hist) + [ev], "cfg": cfg["label"],
                            "swallowed": h.sys.swallowed()[:4]},
                      {"part": 2, "cfg": cfg, "hist": [list(e) for e in hist] + [list(ev)]})
@@ -507,6 +531,48 @@ def p2_expand(item, deadline):
                 nxt.append((h64(h.sys.canon_state()), tuple(hist) + (ev,)))
     acc.info["next"] = nxt
     return acc
+
+
+def p2_bfs(cfg, depth, cap, deadline, acc):
+    """Level-synchronous BFS.  Level L expands the histories of length L; at L == depth only the probes run.
+    `closed` means the frontier emptied before the depth bound, with nothing cut short."""
+    label = "part2[%s]" % cfg["label"]
+    seen = {h64(Hist(cfg).sys.canon_state())}
+    frontier = [()]
+    closed = False
+    reached = 0
+    for level in range(depth + 1):
+        if not frontier:
+            closed = True
+            break
+        if time.time() > deadline:
+            acc.cap("%s: deadline at depth %d with %d frontier states" % (label, level, len(frontier)))
+            break
+        if len(seen) > cap:
+            acc.cap("%s: state cap %d reached at depth %d" % (label, cap, level))
+            break
+        n = min(len(frontier), WORKERS * 4)
+        sub = run_shards(p2_expand, [((cfg, depth), c) for c in chunks(frontier, n)], deadline, persistent=True)
+        nxt = sub.info.pop("next", [])
+        cut = bool(sub.caps)
+        acc.merge(sub)
+        reached = level
+        frontier = []
+        for k, hist in nxt:
+            if k not in seen:
+                seen.add(k)
+                frontier.append(tuple(hist))
+        if cut:
+            break
+    for k in seen:
+        acc.states.add(k)
+        acc.keys.add(k)
+    acc.max_depth = max(acc.max_depth, reached)
+    acc.info["%s states" % label] = len(seen)
+    acc.info["%s depth" % label] = reached
+    acc.info["%s closed" % label] = closed
+    acc.closed = closed if acc.closed is None else (acc.closed and closed)
+    return closed
 
 
 # ===================================================================================== part 3: TTL sweep
@@ -618,44 +684,33 @@ def run(tier, seed, deadline):
     if "3" in parts:
         phases = [0.0, 0.5] if tier == "quick" else [0.0, 0.25, 0.5, 0.75]
         cases3 = [(ttl, ph) for ttl in range(1, 301) for ph in phases]
-        run_shards(p3_shard, [(tier != "quick", c) for c in chunks(cases3, 64)], t0 + span * 0.25, into=acc)
+        run_shards(p3_shard, [(tier != "quick", c) for c in chunks(cases3, 64)], t0 + span * 0.15, into=acc)
         acc.info["part3 cases"] = len(cases3)
 
+    # ---- part 2 (before part 1: under a loaded machine the cap then falls on the largest layouts of part 1)
+    if "2" in parts:
+        plans = p2_configs(tier)
+        for k, (cfg, depth, cap) in enumerate(plans):
+            remaining = t0 + span * 0.6 - time.time()
+            if remaining <= 0:
+                acc.cap("part2: deadline before %s" % cfg["label"])
+                break
+            sub_deadline = time.time() + remaining / (len(plans) - k)
+            p2_bfs(cfg, depth, cap, sub_deadline, acc)
+        acc.sample({"part": 2, "cfg": plans[0][0]["label"], "state_of_a_history": repr(p2_replay(
+            plans[0][0], (("reg", "f0", 2), ("adv", 1.0), ("unreg", "f0"))).sys.canon_state())[:1500]})
     # ---- part 1
     if "1" in parts:
         lays = p1_layouts(tier)
         lays.sort(key=lambda l: (sum(a + b for a, b in l["subnets"]) + len(l["fds"]), l["family"]))
         acc.info["part1 layouts in the family"] = len(lays)
-        run_shards(p1_shard, [(1, c) for c in chunks(lays, 128)], t0 + span * 0.62, into=acc)
+        run_shards(p1_shard, [(1, c) for c in chunks(lays, 128)], deadline, into=acc)
         mid = lays[len(lays) // 2]
         s0, pts, pl = p1_execute(mid, BipSystem(mid).order[0], ())
         acc.sample({"part": 1, "layout": mid, "originator": s0.order[0],
                     "wire": ["%s %s->%s %s" % (e[1], e[2], e[3], bbmdref.parse_bvll(e[4])["name"]) for e in s0.wire.log[-12:]],
                     "copies": {k: len(v) for k, v in s0.copies(pl).items()}})
 
-    # ---- part 2
-    if "2" in parts:
-        plans = p2_configs(tier)
-        for k, (cfg, depth, cap) in enumerate(plans):
-            remaining = deadline - time.time()
-            if remaining <= 0:
-                acc.cap("part2: deadline before %s" % cfg["label"])
-                break
-            sub_deadline = time.time() + remaining / (len(plans) - k)
-            label = "part2[%s]" % cfg["label"]
-            sub = Acc()
-            h = Hist(cfg)
-            seen, closed, capped = bfs(p2_expand, (cfg, depth), (), h64(h.sys.canon_state()), depth + 1, sub_deadline, sub,
-                                       max_states=cap, label=label)
-            # the last level only runs the probes (no successors), so an empty frontier there is not closure
-            really_closed = closed and sub.info["%s depth" % label] <= depth and not capped
-            sub.info["%s closed" % label] = really_closed
-            sub.info["%s depth" % label] = min(sub.info["%s depth" % label], depth)
-            sub.closed = really_closed
-            sub.max_depth = min(sub.max_depth, depth)
-            acc.merge(sub)
-        acc.sample({"part": 2, "cfg": plans[0][0]["label"], "state_of_a_history": repr(p2_replay(
-            plans[0][0], (("reg", "f0", 2), ("adv", 1.0), ("unreg", "f0"))).sys.canon_state())[:1500]})
     return acc
 
 
@@ -665,7 +720,7 @@ def replay(case):
     if part == 1:
         acc = Acc()
         sysm, points, payload = p1_execute(case["layout"], case["origin"], tuple(case["choices"]))
-        problems = p1_record(acc, case["layout"], case["origin"], sysm, points, payload)
+        problems = p1_record(acc, case["layout"], case["origin"], sysm, points, payload, confirm=False)
         text = "layout=%r origin=%s schedule=%r\ncopies=%r\nwire=%r\nproblems=%r" % (
             case["layout"], case["origin"], explorer.labels(points), {k: len(v) for k, v in sysm.copies(payload).items()},
             ["%s %s->%s %s" % (e[1], e[2], e[3], bbmdref.parse_bvll(e[4])["name"]) for e in sysm.wire.log[-30:]], problems)
